@@ -126,13 +126,9 @@ func regexify(name string) (*regexp.Regexp, error) {
 	if name == "" {
 		name = "(?i).*"
 	}
-	// Anchor if required.
-	if !strings.HasPrefix(name, "^") {
-		name = fmt.Sprintf("^%s", name)
-	}
-	if !strings.HasSuffix(name, "$") {
-		name = fmt.Sprintf("%s$", name)
-	}
+	// Anchor the expression as a whole, so that anchors apply to every alternative
+	// of the supplied expression and cannot be defeated by an escaped trailing '$'.
+	name = fmt.Sprintf("^(?:%s)$", name)
 	// Case insensitivity if required.
 	if !strings.HasPrefix(name, "(?i)") {
 		name = fmt.Sprintf("(?i)%s", name)
